@@ -55,12 +55,13 @@ def expand(text, caps, loopvar_bound):
         body = body.replace('\\\n', ' ')
         body, k = expand(body, caps, loopvar_bound)     # inner quantifiers first
         n += k
-        bounds = re.findall(r'\b%s\s*<\s*([A-Za-z_]\w*)' % re.escape(v), body)
-        known = [caps[b] for b in bounds if b in caps]
+        pairs = re.findall(r'\b%s\s*<(=?)\s*([A-Za-z_]\w*)' % re.escape(v), body)
+        bounds = [b for _, b in pairs]
+        known = [caps[b] + (1 if eq else 0) for eq, b in pairs if b in caps]
         if known:
             S = min(known)
         elif bounds:
-            S = caps[loopvar_bound(bounds)]
+            S = loopvar_bound(bounds, caps) + 1
         else:
             raise FiniteBreak('no upper bound for %s in: %s' % (v, body[:100]))
         op = ' && ' if m.group(1) == 'forall' else ' || '
@@ -71,12 +72,15 @@ def expand(text, caps, loopvar_bound):
     return ''.join(out), n
 
 
-def default_loopvar_bound(bounds):
-    # a variable bounded by a loop counter over the candidate vector / a fresh-object watermark
-    for b in bounds:
-        if b in ('i', 'it', 'anim_n'):
-            return 'NCAT_MAX'
-    return 'OMAX'
+def default_loopvar_bound(bounds, caps):
+    """a variable bounded only by program variables: the candidate-vector capacity for a loop counter over the candidates, else the largest capacity
+    (more instances than needed are harmless: each is guarded by its own range condition)"""
+    if 'NCAT_MAX' in caps and any(b in ('i', 'it', 'anim_n') for b in bounds):
+        return caps['NCAT_MAX']
+    known = [caps[k] for k in ('KMAX', 'HMAX', 'VMAXV', 'OMAX', 'NCAT_MAX', 'VNMAX') if k in caps]
+    if not known:
+        raise FiniteBreak('no capacity known for a variable bounded by %s' % bounds)
+    return max(known)
 
 
 if __name__ == '__main__':
